@@ -2,6 +2,7 @@ package path
 
 import (
 	"errors"
+	"strings"
 )
 
 func build(source string, parsed any) PropertyPath {
@@ -57,7 +58,8 @@ func ParsePath(path string) (PropertyPath, error) {
 		return nil, err
 	}
 
-	propertyPath := build(path, parsed)
+	// the source is pasted into comments and traces of the generated code, whitespace (new lines) is not significant
+	propertyPath := build(strings.Join(strings.Fields(path), " "), parsed)
 
 	return propertyPath, nil
 }
